@@ -3,6 +3,9 @@ Shared helpers for C13 / C14 / C15 (not a property module): crystal zoo, small v
 interstitial calculators, in-memory HDF5 save/reload, random thermodynamic inputs, bit-exact comparison.
 Everything imports `onsager` through sys.path as set up by vcheck (honours ONSAGER_REPO).
 """
+import os
+for _v in ('OPENBLAS_NUM_THREADS', 'OMP_NUM_THREADS', 'MKL_NUM_THREADS'):
+    os.environ.setdefault(_v, '1')      # bit-exact comparisons: no thread-scheduling effects in BLAS/LAPACK reductions
 import numpy as np
 
 _S3 = np.sqrt(3.0)
